@@ -2,5 +2,6 @@
 # usage: seedbatch.sh "<seed-dir> <CHECKS>" ...   -- runs from a private snapshot of /verif so that edits to /verif do not disturb it
 SNAP=/tmp/vsnap
 mkdir -p $SNAP && rsync -a --delete --exclude work --exclude harness/target --exclude .git --exclude replays /verif/ $SNAP/
+(cd $SNAP && bin/setup > /tmp/vsnap_setup.log 2>&1)
 for x in "$@"; do set -- $x; VSNAP=$SNAP python3 /verif/tools/seedrun.py $1 $2; done
 echo ALLDONE
